@@ -438,10 +438,19 @@ func materialStage(r *ev.Run, m int) {
 						r.NontrivialAdd(1)
 					}
 					// the BSDF is the phase function (times the scatter colour), divided by |cos| unless normals are ignored
+					withN := &render3d.HGMaterial{G: g, ScatterColor: render3d.NewColor(0.9)}
 					for _, s := range []c3{dirAt(d, 0.9, 1), dirAt(d, -0.3, 2), dirAt(d, 0.1, 5)} {
 						b := mat.BSDF(n, s, d)
 						if !(math.Abs(b.X-0.9*mat.SourceDensity(n, s, d)) <= 1e-9*(1+b.X)) {
 							r.Violation("HG/bsdf", fmt.Sprintf("g=%g: BSDF %g is not scatter colour x phase function %g", g, b.X, mat.SourceDensity(n, s, d)), c)
+						}
+						// with normals the BSDF "cancels out the normal cosine term": BSDF x |cos| is the same quantity, so
+						// that the energy taken from all source directions is the scatter colour, not more
+						if cs := math.Abs(s.Dot(n)); cs > 1e-3 {
+							bn := withN.BSDF(n, s, d)
+							if !(math.Abs(bn.X*cs-b.X) <= 1e-9*(1+b.X)) {
+								r.Violation("HG/bsdf-cosine", fmt.Sprintf("g=%g: BSDF x |cos| = %g x %g is not scatter colour x phase function %g", g, bn.X, cs, b.X), c)
+							}
 						}
 					}
 				})
@@ -664,12 +673,21 @@ func checkRefract(r *ev.Run, m int, ior float64, spec bool, n, d c3) {
 			// probability mass the density assigns to the cap around the lobe = density x cap fraction (eps/2)
 			mass := dens(l.dir) * eps / 2
 			sum += mass
-			if !(math.Abs(mass-l.p) <= 1.0/float64(len(ss))+1e-9) {
+			// lattice resolution of the sampled probability; a sampler that draws nothing is exact
+			res := 1.0 / float64(len(ss))
+			if len(ss) == 1 {
+				res = 0
+			}
+			if !(math.Abs(mass-l.p) <= res+1e-9) {
 				r.Violation("Refract/"+name+"/density-vs-sampler", fmt.Sprintf("%s normal %v fixed %v: the sampler returns %v with probability %.4f, the density puts mass %.4f there", c.Params, n, d, l.dir, l.p, mass), c)
 				return
 			}
 		}
-		if !(math.Abs(sum-1) <= 2.0/float64(len(ss))+1e-9) && len(lobes) > 0 {
+		res2 := 2.0 / float64(len(ss))
+		if len(ss) == 1 {
+			res2 = 0
+		}
+		if !(math.Abs(sum-1) <= res2+1e-9) && len(lobes) > 0 {
 			r.Violation("Refract/"+name+"/density-not-normalised", fmt.Sprintf("%s normal %v fixed %v: the delta lobes carry total mass %.4f", c.Params, n, d, sum), c)
 			return
 		}
@@ -686,20 +704,27 @@ func checkRefract(r *ev.Run, m int, ior float64, spec bool, n, d c3) {
 			}
 		}
 		// Fresnel split (source side): probability of the mirror lobe against Schlick's approximation
-		if spec && side == 0 && len(lobes) == 2 {
+		if spec && side == 0 {
 			mirror := n.Scale(2 * n.Dot(d)).Sub(d).Scale(-1)
 			cos := math.Abs(n.Dot(d))
 			r0 := (ior - 1) / (ior + 1)
 			r0 *= r0
 			want := r0 + (1-r0)*math.Pow(1-cos, 5)
+			// whether a refracted direction exists at all is read off the same material without the Fresnel term:
+			// it sends everything to the mirror direction exactly when refraction is impossible
+			plain := &render3d.RefractMaterial{IndexOfRefraction: ior, RefractColor: render3d.NewColor(0.9)}
+			if plain.SampleSource(rand.New(&script{vals: []int64{1}}), n, d).Dist(mirror) < 1e-6 {
+				want = 1
+			}
+			got := 0.0
 			for _, l := range lobes {
 				if l.dir.Dist(mirror) < 1e-6 {
-					got := dens(l.dir) * eps / 2
-					if !(math.Abs(got-want) <= 1e-6) {
-						r.Violation("Refract/fresnel-schlick", fmt.Sprintf("ior=%g, cos(incidence)=%.4f: mirror-lobe share %.6f, Schlick's R0 + (1-R0)(1-cos)^5 = %.6f (R0 = %.6f)", ior, cos, got, want, r0), c)
-						return
-					}
+					got += dens(l.dir) * eps / 2
 				}
+			}
+			if !(math.Abs(got-want) <= 1e-6) {
+				r.Violation("Refract/fresnel-schlick", fmt.Sprintf("ior=%g, cos(incidence)=%.4f: mirror-lobe share %.6f, Schlick's R0 + (1-R0)(1-cos)^5 = %.6f (R0 = %.6f)", ior, cos, got, want, r0), c)
+				return
 			}
 		}
 	}
@@ -721,8 +746,45 @@ func checkRefract(r *ev.Run, m int, ior float64, spec bool, n, d c3) {
 		total += b.X * math.Abs(n.Dot(out)) * eps / 2
 	}
 	r.Eval(1)
-	if total > 1+1e-6 {
+	if !(total <= 1+1e-6) {
 		r.Violation("Refract/energy", fmt.Sprintf("%s normal %v source %v: outgoing energy %.6f exceeds the incoming energy", c.Params, n, d, total), c)
+	}
+	// away from the lobes nothing is scattered (anything there would be energy on top of the lobes')
+	for _, x := range dirs {
+		far := true
+		for _, l := range seen {
+			if l.Dot(x) > 1-1e-6 {
+				far = false
+			}
+		}
+		if b := mat.BSDF(n, d, x); far && (b.X != 0 || b.Y != 0 || b.Z != 0) {
+			r.Violation("Refract/bsdf-outside-lobes", fmt.Sprintf("%s normal %v source %v: BSDF %v towards %v, away from the mirror and the refracted direction", c.Params, n, d, b, x), c)
+			return
+		}
+	}
+	// Fresnel split of the energy: with a white mirror colour the mirror lobe carries Schlick's share R of the
+	// incoming energy and the refracted lobe carries (1-R) x refract colour
+	if spec && len(seen) == 2 {
+		mirror := n.Scale(2 * n.Dot(d)).Sub(d).Scale(-1)
+		cos := math.Abs(n.Dot(d))
+		r0 := (ior - 1) / (ior + 1)
+		r0 *= r0
+		R := r0 + (1-r0)*math.Pow(1-cos, 5)
+		for _, out := range seen {
+			co := math.Abs(n.Dot(out))
+			if co < 1e-6 || cos < 1e-6 {
+				continue
+			}
+			e := mat.BSDF(n, d, out).X * co * eps / 2
+			want, what := 0.9*(1-R), "refracted"
+			if out.Dist(mirror) < 1e-6 {
+				want, what = R, "mirror"
+			}
+			if !(math.Abs(e-want) <= 1e-6) {
+				r.Violation("Refract/fresnel-energy-split", fmt.Sprintf("ior=%g, cos(incidence)=%.4f: the %s lobe carries %.6f of the incoming energy, Schlick's split gives %.6f (R = %.6f, refract colour 0.9, mirror colour 1)", ior, cos, what, e, want, R), c)
+				return
+			}
+		}
 	}
 	r.NontrivialAdd(1)
 }
@@ -870,6 +932,34 @@ func lightStage(r *ev.Run, m int) {
 						break
 					}
 				}
+			}
+			// around the axis: the azimuth of the sample (in any fixed frame) minus 2 pi x one of the draws must be
+			// the same constant for every sample, i.e. the angle is uniform and covers the whole circle
+			bx, by := axis.OrthoBasis()
+			azOK := false
+			for di := 0; di < 3 && !azOK; di++ {
+				var ref float64
+				have, good := false, true
+				for _, s := range ss {
+					o := s.out.([3]c3)
+					z := o[0].Sub(cy.P1).Dot(axis)
+					radial := o[0].Sub(cy.P1).Sub(axis.Scale(z))
+					if radial.Norm() < 1e-6*cy.Radius {
+						continue
+					}
+					phi := math.Atan2(radial.Dot(by), radial.Dot(bx)) - 2*math.Pi*s.draws[di]
+					phi -= 2 * math.Pi * math.Floor(phi/(2*math.Pi))
+					if !have {
+						ref, have = phi, true
+					} else if d := math.Abs(phi - ref); !(d <= 1e-6 || math.Abs(d-2*math.Pi) <= 1e-6) {
+						good = false
+						break
+					}
+				}
+				azOK = have && good
+			}
+			if !azOK {
+				r.Violation("CylinderAreaLight/azimuth-not-uniform", fmt.Sprintf("%s: the angle of the samples around the axis is not 2 pi x one of the draws (plus a constant)", c.Params), c)
 			}
 			r.NontrivialAdd(1)
 		}
